@@ -148,9 +148,11 @@ def check_case(ctx, case):
         warnings.simplefilter("ignore")
         try:
             for (a, b) in zip(H.ts[:-1], H.ts[1:]):
-                Y.update_orientations(H.params, F, H.Lfun, (a, b, H.posfun))
+                # the interleaved minerals are driven with *other* solver options than X (options must not leak)
+                Y.update_orientations(H.params, F, H.Lfun, (a, b, H.posfun), rtol=1e-3, atol=1e-2)
                 Fn = X.update_orientations(H.params, F, H.Lfun, (a, b, H.posfun), get_regime=gr, **skw)
-                Z.update_orientations(H.params, F @ np.diag([1.0, 2.0, 0.5]), H.Lfun, (a, b, H.posfun), get_regime=gr)
+                Z.update_orientations(H.params, F @ np.diag([1.0, 2.0, 0.5]), H.Lfun, (a, b, H.posfun), get_regime=gr,
+                                      max_step=abs(b - a) / 2, rtol=1e-4)
                 F = Fn
             ctx.check("c:interleaving_bit_identical", _same(X, m_multi), case)
             X1, Y1, X2, Y2 = H.mineral(), other(), H.mineral(), other()
